@@ -1,5 +1,6 @@
 import Bmc.Lemmas.SessionProps
 import Bmc.Lemmas.SessionlessSpec
+import Bmc.Gen.Facts
 /-! # C09 — session sequence numbers strictly increase and are never reused (property theorems only) -/
 namespace Bmc.Proofs.C09
 open Bmc Bmc.Wire Bmc.Crypto Bmc.Proto
@@ -130,5 +131,10 @@ theorem sessionless_all_null (c : Cmd) (script : List Outcome) :
     rw [(Bmc.Proto.slLoop_spec c _ _ script).2] at hp
     have := List.eq_of_mem_replicate hp
     rw [this]; exact sessionless_null c
+
+/-- TIE to the source (regenerated on every run): the only function of the module that assigns to a session sequence
+    counter (`…Inbound` / `…Outbound`) is `V2Session.buildAndSend` — the pre-increment the model's `attempt` mirrors.
+    Another writer (a "restore", an "accept", a reset) changes this list. -/
+theorem sequence_counter_writers : Bmc.Gen.Facts.seqCounterWriters = ["bmc.buildAndSend"] := by decide
 
 end Bmc.Proofs.C09
